@@ -32,7 +32,7 @@ ASSUMPTIONS = [
     "non-empty leaf syntenies; family order inside a leaf irrelevant",
     "reference oracles of harness/oracles.py",
 ]
-BUDGET = {"quick": {"random": 16000}, "thorough": {"random": 160000}}
+BUDGET = {"quick": {"random": 16000}, "thorough": {"random": 120000}}
 FUZZ = {"thorough": {"runs": 20000, "max_time": 900}}
 EXHAUSTIVE_RULE = {
     "quick": "every plane binary object shape <=3 leaves x species shape <=3 leaves x leaf assignment x every assignment of a non-empty family "
